@@ -55,6 +55,8 @@ func replay(cw *caseWriter, path string) {
 			lsRun(cw, tag, in, false)
 		case 16:
 			c16exec(cw, tag, in)
+		case 15, 1501, 1502:
+			c15exec(cw, tag, comp, in)
 		case 17:
 			c17exec(cw, tag, in)
 		case 18, 1801, 1018:
@@ -74,6 +76,10 @@ func replay(cw *caseWriter, path string) {
 // harness <component> <tier> <seed> <outfile>
 // harness replay <casefile> - <outfile>
 func main() {
+	if len(os.Args) >= 2 && os.Args[1] == "c15child" {
+		c15child(os.Args[2:])
+		return
+	}
 	if len(os.Args) >= 2 && os.Args[1] == "c17cell" {
 		c17child(os.Args[2:])
 		return
@@ -119,6 +125,8 @@ func main() {
 		runC20(cw, tier, seed)
 	case "c16":
 		runC16(cw, tier, seed)
+	case "c15":
+		runC15(cw, tier, seed)
 	case "c17":
 		runC17(cw, tier, seed)
 	case "c18":
